@@ -40,6 +40,9 @@ def check(ctx):
     c15.r15_2(ctx, g)  # both ends are filled / emptied on every path
     r14_2_3(ctx, g)
     r14_4(ctx)
+    from . import c06
+
+    c06.r06_6(ctx)  # every declared link is loaded, wherever its L line stands in the file (a walk over a dropped link spells nothing)
     ctx.not_decided.append("tokenisation of unusual node names by re.findall('[><][^><]+') (names containing '>' or '<' are not valid GFA ids)")
 
 
